@@ -97,3 +97,17 @@ Example C02_types_refuted :
   run_event p_push_scalar (initial_members (p_members p_push_scalar)) ev0
     = RStuck (KType "push_back on non-vector _a").
 Proof. exact types_refuted_lemma. Qed.
+
+(* ---------- for ALL queries of fragment F1 ---------- *)
+(* The program the fragment translator emits for ANY query of F1 (Model/FragQuery.v; text-identical to the
+   implementation's on every generated fragment query, checked by C01 on every run) never reads an unbound or
+   uninitialised name and never applies an ill-typed operation: on every event on which the query has a value
+   or is undefined, and from every member state of the analysis object's invariant, the event terminates with
+   rows or with a fault - it is never stuck. *)
+From FV Require Import Model.FragTranslate Model.FragQuery Proofs.FragProofs Proofs.FragQueryProofs.
+Theorem C02_fragment_never_stuck :
+  forall (bk : FragTranslate.backend) (q : query) (n0 : nat) (ev : event) (ms : frame),
+  query_ok q = true -> NoDup (bmems (q_body q) (body_start q n0)) -> binit (q_body q) (body_start q n0) ms ->
+  nstuck (dquery ev q) -> nstuck (run_event (prog_q bk q n0) ms ev).
+Proof. exact frag_never_stuck. Qed.
+Print Assumptions C02_fragment_never_stuck.
